@@ -4,4 +4,6 @@ go 1.26.8
 
 require github.com/pion/transport/v3 v3.0.0
 
+require github.com/pion/logging v0.2.3
+
 replace github.com/pion/transport/v3 => /repo
